@@ -15,7 +15,8 @@ for p in $PROPS; do
   cp evidence/$p.json /tmp/seeded_ev_$p.json 2>/dev/null   # evidence must describe the unchanged tree: put it back afterwards
   ./check $p > /tmp/seeded_${ID}_${p}.out 2>&1; rc=$?
   echo "== $p rc=$rc" >> "$D/result.txt"
-  grep -E "^(VIOLATION|OK|TOOL-ERROR|KNOWN-FINDING|SPEC-DRIFT|  clause)" /tmp/seeded_${ID}_${p}.out | sed 's/replay=[^ ]*//' | sort | uniq -c | sort -rn | head -8 >> "$D/result.txt"
+  grep -E "^(VIOLATION|OK|TOOL-ERROR|KNOWN-FINDING|  clause)" /tmp/seeded_${ID}_${p}.out | sed 's/replay=[^ ]*//' | sort | uniq -c | sort -rn | head -8 >> "$D/result.txt"
+  grep -E "^SPEC-DRIFT" /tmp/seeded_${ID}_${p}.out | sort | uniq -c | sort -rn | head -4 >> "$D/result.txt"
   cp /tmp/seeded_ev_$p.json evidence/$p.json 2>/dev/null
 done
 cd /repo && git checkout -- . && git clean -fdq
